@@ -49,6 +49,7 @@ def gen_exec(r, xid, tp, prof, raw=False):
     p = PROFILES.get(prof, PROFILES["default"])
     stream = tp in ("btcp", "btls")
     seq = tp in ("ux", "uxf", "utls")
+    tlsb = tp in ("tls", "btls", "utlst")
     lines = ["X %d %s%s" % (xid, tp, " raw" if raw else "")]
     n = r.randint(*p["steps"])
     alive = {1: True, 2: True}
@@ -69,7 +70,8 @@ def gen_exec(r, xid, tp, prof, raw=False):
             wc = pick_credit(r, ln + 8)
             if seq and wc > 0:
                 wc = -1
-            lines.append("s %d %d %d %d" % (e, ln, wc, inj))
+            pol = r.choice([0, 1, 1, 2]) if stream else 0
+            lines.append("s %d %d %d %d %d" % (e, ln, wc, inj, pol))
         elif k == "recv":
             cap = r.choice([1, 2, 3, 4, 5, 8, 16, 64, 100, 1000, 65535, 70000])
             rc = pick_credit(r, 80)
@@ -129,7 +131,9 @@ def gen_raw_exec(r, xid, tp):
             else:
                 lines.append("W p %d" % h)
         else:
-            h = r.choice([0, 0, 65536, 65537, 70000, 2 ** 31 - 1, 2 ** 31, 2 ** 32 - 1, 16777216, r.randint(65536, 2 ** 32 - 1)])
+            h = r.choice([0, 0, 65536, 65537, 70000, 2 ** 31 - 1, 2 ** 31, 2 ** 31 + 1, 2 ** 32 - 1, 2 ** 32 - 2, 2 ** 32 - 3,
+                          2 ** 32 - 4, 2 ** 32 - 5, 2 ** 32 - 65536, 2 ** 24, 2 ** 16 + 2 ** 24, r.randint(65536, 2 ** 32 - 1),
+                          2 ** 32 - r.randint(1, 70000)])
             lines.append("W h %d" % h)
             if r.random() < 0.7:
                 lines.append("W p %d" % r.randint(0, 300))
@@ -168,6 +172,8 @@ def run_scripts(binary, scripts, tag, env=None, nproc=vlib.NCPU, timeout=1200):
     e.update({"XCM_CTL": "/nonexistent-verif", "VERIF_RUN_DIR": d,
               "ASAN_OPTIONS": "detect_leaks=0:abort_on_error=0:detect_stack_use_after_return=1:handle_abort=0:handle_segv=0:exitcode=3",
               "UBSAN_OPTIONS": "print_stacktrace=1:halt_on_error=1:suppressions=%s/shim/ubsan.supp" % vlib.V})
+    vlib.sh("%s/bin/gencreds.sh" % vlib.V, check=True)
+    e["XCM_TLS_CERT"] = vlib.BUILD + "/creds/default"
     if env:
         e.update(env)
     for i, ch in enumerate(chunks):
